@@ -515,9 +515,13 @@ def run_tasks(modname, tasks, pid, seed, tier, jobs=None):
     return [_worker(modname, t, pid, seed, tier) for t in tasks]
   ctxm = mp.get_context('spawn')
   results = [None] * len(tasks)
-  with cf.ProcessPoolExecutor(max_workers=jobs, mp_context=ctxm) as ex:
+  # wall budget of the whole pool: a task that does not finish is reported as a harness error (exit 2), never as success
+  budget = float(os.environ.get('DVERIF_POOL_TIMEOUT', '1500' if tier == 'quick' else '14400'))
+  ex = cf.ProcessPoolExecutor(max_workers=jobs, mp_context=ctxm)
+  try:
     futs = {ex.submit(_worker, modname, t, pid, seed, tier): i for i, t in enumerate(tasks)}
-    for fu in cf.as_completed(futs):
+    done, pending = cf.wait(futs, timeout=budget)
+    for fu in done:
       i = futs[fu]
       try:
         results[i] = fu.result()
@@ -525,6 +529,19 @@ def run_tasks(modname, tasks, pid, seed, tier, jobs=None):
         r = new_result(tasks[i]['name'])
         r['errors'].append(dict(clause=tasks[i]['name'], message=f'worker crashed: {e!r}'))
         results[i] = r
+    for fu in pending:
+      i = futs[fu]
+      r = new_result(tasks[i]['name'])
+      r['errors'].append(dict(clause=tasks[i]['name'], message=f'task did not finish within the pool budget of {budget:.0f} s (inconclusive)'))
+      results[i] = r
+    if pending:
+      for p_ in list(getattr(ex, '_processes', {}).values()):
+        try:
+          p_.kill()
+        except Exception:  # noqa: BLE001
+          pass
+  finally:
+    ex.shutdown(wait=False, cancel_futures=True)
   return results
 
 
